@@ -474,6 +474,8 @@ def s6_length_read_exactly(ctx, bodies):
                     if not any(op_place(o) and op_place(o)[0] in fwd for o in b.operands_of_rvalue(s["rv"])):
                         continue
                     k = [op_int(o) for o in b.operands_of_rvalue(s["rv"]) if op_int(o) is not None]
+                    if not k:
+                        continue        # combined with a run-time value (a per-protocol mask kept in the authenticator, a tag size): not decided here
                     if op == "BitAnd" and k and k[0] >= 0xFFFF:
                         continue
                     if op == "BitAnd" and k and k[0] == 0x3FFF and not used_2022 and "vmess" not in b.defp:
